@@ -199,16 +199,30 @@ func runC20(c *Ctx) {
 		}
 		for _, cm := range cmpsAt(at) {
 			x, y, op := cm.X, cm.Y, cm.Op
-			if y == ssa.Value(ph) {
-				x, y, op = y, x, flipOp(op)
+			// the compared value may be φ + shift
+			isPhiForm := func(v ssa.Value) (int64, bool) {
+				if v == ssa.Value(ph) {
+					return 0, true
+				}
+				if f, ok := affOf(v, ph, nil, 0); ok && f.a == 1 && f.d == 1 {
+					return f.b, true
+				}
+				return 0, false
 			}
-			if x != ssa.Value(ph) {
+			if _, ok := isPhiForm(x); !ok {
+				if _, ok2 := isPhiForm(y); ok2 {
+					x, y, op = y, x, flipOp(op)
+				}
+			}
+			shift, ok := isPhiForm(x)
+			if !ok {
 				continue
 			}
 			g, ok := lc.of(y, 0)
 			if !ok {
 				continue
 			}
+			g.c -= shift // φ + shift OP g  ⇔  φ OP g − shift
 			switch op {
 			case token.LSS:
 				u := lin{g.a, g.b, g.c - 1}
@@ -285,6 +299,49 @@ func runC20(c *Ctx) {
 			}
 			if width == 0 {
 				c.undecided("R-UNSAFE-BOUNDS", key, cv.Pos(), "width of the unsafe access not recognised")
+				return
+			}
+			// a word VIEW instead of a single word: unsafe.Slice((*uintN)(unsafe.Pointer(&data[i])), count) spans width·count bytes
+			var viewCount ssa.Value
+			for _, r := range referrersOf(cv) {
+				if cv2, ok := r.(*ssa.Convert); ok {
+					for _, r2 := range referrersOf(cv2) {
+						if call, ok := r2.(*ssa.Call); ok {
+							if b, ok := call.Call.Value.(*ssa.Builtin); ok && b.Name() == "Slice" && len(call.Call.Args) == 2 && call.Call.Args[0] == ssa.Value(cv2) {
+								viewCount = call.Call.Args[1]
+							}
+						}
+					}
+				}
+			}
+			if viewCount != nil {
+				lc := &linCtx{data: ia.X}
+				key2 := name + ":word view"
+				if _, isParam := ia.X.(*ssa.Parameter); !isParam {
+					c.undecided("R-UNSAFE-BOUNDS", key2, cv.Pos(), "the viewed slice is not the function's parameter")
+					return
+				}
+				f, okI := lc.of(ia.Index, 0)
+				// span in bytes: width · count, with count = len(data) >> 3 or len(data) / 8 giving n &^ 7 when width = 8
+				var span lin
+				okS := false
+				if bo, ok := viewCount.(*ssa.BinOp); ok {
+					if x, okx := lc.of(bo.X, 0); okx && x == (lin{1, 0, 0}) && width == 8 {
+						if (bo.Op == token.SHR && isConstInt(bo.Y, 3)) || (bo.Op == token.QUO && isConstInt(bo.Y, 8)) {
+							span, okS = lin{0, 1, 0}, true
+						}
+					}
+				}
+				if k, ok := constInt(viewCount); ok && k >= 0 {
+					span, okS = lin{0, 0, k * width}, true
+				}
+				if !okI || !okS {
+					c.undecided("R-UNSAFE-BOUNDS", key2, cv.Pos(), "start or length of the word view is not a form the analysis can bound: "+sym(ia.Index)+", "+sym(viewCount))
+					return
+				}
+				lo := f.nonneg()
+				hi := (lin{1, 0, 0}).sub(f).sub(span).nonneg()
+				c.judge(lo && hi, "R-UNSAFE-BOUNDS", key2, cv.Pos(), "view ["+f.String()+", +"+span.String()+") within the slice", "the word view starting at "+f.String()+" and spanning "+span.String()+" bytes is not provably inside the slice")
 				return
 			}
 			// the access may sit in a helper that receives the slice and the index: judge it at every call site
